@@ -89,6 +89,7 @@ get32(const uint8_t *p)
 
 // a message as a JSON object: header words (if any, 4-byte aligned) and the body tag.
 // body: 4 bytes = tag; otherwise "len" is reported and tag = first 4 bytes (or 0)
+static int symw;
 static void
 msg_json(nng_msg *m)
 {
@@ -96,7 +97,13 @@ msg_json(nng_msg *m)
 	uint8_t *h = nng_msg_header(m), *b = nng_msg_body(m);
 	o("{\"hdr\":[");
 	for (size_t i = 0; i + 4 <= hl; i += 4) {
-		o("%s%u", i ? "," : "", get32(h + i));
+		uint32_t w = get32(h + i);
+		if (symw) {
+			// symbolic words: "i<n>" has the request/survey bit, "h<n>" does not
+			o("%s\"%c%u\"", i ? "," : "", (w & 0x80000000u) ? 'i' : 'h', w & 0x7fffffffu);
+		} else {
+			o("%s%u", i ? "," : "", w);
+		}
 	}
 	o("],\"m\":%u", bl >= 4 ? get32(b) : 0);
 	if (bl != 4) {
@@ -381,14 +388,57 @@ obs_json(void)
 
 static long walk = -1;
 static int  step;
+static int  quiet_cmd; // the current command came with a leading '!': configuration, no result line
 static void
 emit(void)
 {
-	printf("R %ld %d %s\n", walk, step, ob);
-	fflush(stdout);
+	if (!quiet_cmd) {
+		printf("R %ld %d %s\n", walk, step, ob);
+		fflush(stdout);
+		step++;
+	}
 	on    = 0;
 	ob[0] = 0;
-	step++;
+}
+
+// ids seen on the wire (REQ request ids, SURVEYOR survey ids), by the body tag of the message that carried them
+static struct {
+	uint32_t tag, id;
+} idtab[256];
+static int nidtab;
+static uint32_t
+id_of_tag(uint32_t tag)
+{
+	for (int i = 0; i < nidtab; i++) {
+		if (idtab[i].tag == tag) {
+			return idtab[i].id;
+		}
+	}
+	return 0;
+}
+// classify the header word of an outgoing request: "id" = has the request bit, is consistent with what this
+// request carried before, and is not used by another outstanding request
+static const char *
+note_id(uint32_t tag, uint32_t id)
+{
+	uint32_t prev = id_of_tag(tag);
+	if ((id & 0x80000000u) == 0) {
+		return "nobit";
+	}
+	if (prev != 0) {
+		return prev == id ? "id" : "idchanged";
+	}
+	for (int i = 0; i < nidtab; i++) {
+		if (idtab[i].id == id) {
+			return "iddup";
+		}
+	}
+	if (nidtab < 256) {
+		idtab[nidtab].tag = tag;
+		idtab[nidtab].id  = id;
+		nidtab++;
+	}
+	return "id";
 }
 
 static nng_msg *
@@ -472,7 +522,12 @@ main(int argc, char **argv)
 	}
 	while (fgets(line, sizeof(line), in) != NULL) {
 		char cmd[32] = "", a1[64] = "", a2[64] = "", a3[64] = "", a4[64] = "", a5[64] = "";
-		int  n = sscanf(line, "%31s %63s %63s %63s %63s %63s", cmd, a1, a2, a3, a4, a5);
+		int  n;
+		quiet_cmd = line[0] == '!';
+		if (quiet_cmd) {
+			memmove(line, line + 1, strlen(line));
+		}
+		n = sscanf(line, "%31s %63s %63s %63s %63s %63s", cmd, a1, a2, a3, a4, a5);
 		if (n < 1) {
 			continue;
 		}
@@ -484,6 +539,7 @@ main(int argc, char **argv)
 			memset(ops, 0, sizeof(ops));
 			memset(dying, 0, sizeof(dying));
 			memset(ctx_open_, 0, sizeof(ctx_open_));
+			nidtab   = 0;
 			auto_run = 0;
 			vt_reset();
 			live0 = acct_live_blocks();
@@ -668,6 +724,11 @@ main(int argc, char **argv)
 			o("\"out\":");
 			if (m == NULL) {
 				o("{\"hdr\":[],\"m\":0,\"none\":true}");
+			} else if ((!strcmp(proto_name, "req") || !strcmp(proto_name, "surveyor")) && !raw_mode &&
+			    nng_msg_header_len(m) == 4 && nng_msg_len(m) == 4) {
+				uint32_t tg = get32(nng_msg_body(m));
+				o("{\"hdr\":[\"%s\"],\"m\":%u}", note_id(tg, get32(nng_msg_header(m))), tg);
+				nng_msg_free(m);
 			} else {
 				msg_json(m);
 				nng_msg_free(m);
@@ -680,7 +741,29 @@ main(int argc, char **argv)
 			int      r;
 			nng_msg_alloc(&m, 0);
 			while (h != NULL) {
-				nng_msg_append_u32(m, (uint32_t) strtoul(h + 2, NULL, 0));
+				uint32_t w;
+				if (h[2] == 'i') {
+					w = 0x80000000u | (uint32_t) strtoul(h + 3, NULL, 0);
+				} else if (h[2] == 'r') {
+					w = id_of_tag((uint32_t) strtoul(h + 3, NULL, 0));
+				} else if (h[2] == 'n') {
+					w = id_of_tag((uint32_t) strtoul(h + 3, NULL, 0)) & 0x7fffffffu;
+				} else if (h[2] == 'u') {
+					w = 0x80000000u | 0x00abcdefu;
+					while (1) {
+						int clash = 0;
+						for (int i = 0; i < nidtab; i++) {
+							clash |= idtab[i].id == w;
+						}
+						if (!clash) {
+							break;
+						}
+						w++;
+					}
+				} else {
+					w = (uint32_t) strtoul(h + 2, NULL, 0);
+				}
+				nng_msg_append_u32(m, w);
 				h = strstr(h + 2, " w");
 			}
 			if (strcmp(a2, "-") != 0) {
@@ -688,6 +771,15 @@ main(int argc, char **argv)
 			}
 			r = vt_inject(atoi(a1), m);
 			o("\"out\":{\"rv\":\"%s\"},", r == 1 ? "delivered" : r == 0 ? "queued" : "nopipe");
+		} else if (!strcmp(cmd, "symw")) {
+			symw = atoi(a1);
+		} else if (!strcmp(cmd, "pipe_close")) {
+			nni_pipe *np = vt_npipe(atoi(a1));
+			if (np != NULL) {
+				nni_pipe_close(np);
+			}
+			settle();
+			o("\"out\":null,");
 		} else if (!strcmp(cmd, "peer_close")) {
 			vt_peer_close(atoi(a1));
 			settle();
